@@ -19,7 +19,8 @@ def ancestors(a):
     out = []
     while a is not None:
         out.append(a)
-        a = getattr(a, "parent", None)
+        # a function local to a region: hierarchically its body lies inside the region that defines it
+        a = getattr(a, "parent", None) or getattr(a, "def_site", None)
     return out
 
 
@@ -30,7 +31,7 @@ def in_same_cfg(a, x):
     while y is not None:
         if getattr(y, "cfg", None) is cfg:
             return True
-        y = getattr(y, "parent", None)
+        y = getattr(y, "parent", None) or getattr(y, "def_site", None)
     return False
 
 
